@@ -567,12 +567,21 @@ Fixpoint run (c : cfg) (st : structure) (s : state) (h : list op) : state * list
 (* One annotator, several models handed to it in turn (a model, its clone, a look-alike, another one, the first
    again, a model that is then destroyed).  [sts] are the structures, [m_ids] the id vector of every model;
    the model the annotator holds is [a_model]; every other operation acts on that model. *)
-Record mstate := { m_ids : list (list string); m_ann : astate }.
-Definition minit (idss : list (list string)) : mstate := {| m_ids := idss; m_ann := ann_init |}.
+Record mstate := { m_ids : list (list string);      (* the id vector of every model *)
+                   m_st : list nat;                 (* the structure every model has at present (index into [sts]) *)
+                   m_ann : astate }.
+Definition minit (idss : list (list string)) (stx : list nat) : mstate := {| m_ids := idss; m_st := stx; m_ann := ann_init |}.
 
 Definition empty_structure : structure := {| st_model := 0; st_enc := 0; st_units := []; st_comps := [] |}.
 Definition nth_st (sts : list structure) (k : nat) : structure := nth k sts empty_structure.
 Definition nth_ids (idss : list (list string)) (k : nat) : list string := nth k idss [].
+Definition st_of (sts : list structure) (ms_st : list nat) (k : nat) : structure := nth_st sts (nth k ms_st 0).
+Fixpoint set_nat (l : list nat) (k : nat) (x : nat) : list nat :=
+  match l, k with
+  | [], _ => []
+  | _ :: r, O => x :: r
+  | y :: r, S m => y :: set_nat r m x
+  end.
 Fixpoint set_ids (idss : list (list string)) (k : nat) (x : list string) : list (list string) :=
   match idss, k with
   | [], _ => []
@@ -584,6 +593,10 @@ Inductive mop :=
 | MSetModel (k : nat)                       (* Annotator::setModel(model k) *)
 | MEdit (k slot : nat) (id : string)        (* a setter on an object of model k (the stored model or another one) *)
 | MDrop                                     (* the last reference to the stored model is dropped: mModel expires *)
+| MStruct (k j : nat)                       (* a structural edit of model k (removeComponent, takeComponent, removeVariable, ...):
+                                               from now on its structure is [sts j]; positions keep their slots, those of removed
+                                               entities are simply no longer met; an equivalence whose other end left the model
+                                               stays with the variable that is still inside (es_other then names a slot outside) *)
 | MOp (o : op).                             (* any operation of [op] on the stored model *)
 
 Definition with_model (a : astate) (k : nat) : astate :=
@@ -597,15 +610,16 @@ Definition mstep (c : cfg) (sts : list structure) (ms : mstate) (o : mop) : msta
   match o with
   | MSetModel k =>
       (* annotator.cpp: setModel: mModel = model; mHash = 0; update() *)
-      let s' := set_model c (nth_st sts k) {| s_ids := nth_ids (m_ids ms) k; s_ann := with_model (m_ann ms) k |} in
-      ({| m_ids := m_ids ms; m_ann := s_ann s' |}, RNone)
+      let s' := set_model c (st_of sts (m_st ms) k) {| s_ids := nth_ids (m_ids ms) k; s_ann := with_model (m_ann ms) k |} in
+      ({| m_ids := m_ids ms; m_st := m_st ms; m_ann := s_ann s' |}, RNone)
   | MEdit k slot id =>
-      ({| m_ids := set_ids (m_ids ms) k (set (nth_ids (m_ids ms) k) slot id); m_ann := m_ann ms |}, RNone)
-  | MDrop => ({| m_ids := m_ids ms; m_ann := without_model (m_ann ms) |}, RNone)
+      ({| m_ids := set_ids (m_ids ms) k (set (nth_ids (m_ids ms) k) slot id); m_st := m_st ms; m_ann := m_ann ms |}, RNone)
+  | MDrop => ({| m_ids := m_ids ms; m_st := m_st ms; m_ann := without_model (m_ann ms) |}, RNone)
+  | MStruct k j => ({| m_ids := m_ids ms; m_st := set_nat (m_st ms) k j; m_ann := m_ann ms |}, RNone)
   | MOp o =>
       let k := a_model (m_ann ms) in
-      let (s', r) := step c (nth_st sts k) {| s_ids := nth_ids (m_ids ms) k; s_ann := m_ann ms |} o in
-      ({| m_ids := set_ids (m_ids ms) k (s_ids s'); m_ann := s_ann s' |}, r)
+      let (s', r) := step c (st_of sts (m_st ms) k) {| s_ids := nth_ids (m_ids ms) k; s_ann := m_ann ms |} o in
+      ({| m_ids := set_ids (m_ids ms) k (s_ids s'); m_st := m_st ms; m_ann := s_ann s' |}, r)
   end.
 
 Fixpoint mrun (c : cfg) (sts : list structure) (ms : mstate) (h : list mop) : mstate * list result :=
